@@ -532,6 +532,12 @@ def prop_boundaries(r):
 # sub-property 3: constants
 
 
+def _casts(src_t, first_t, chain2):
+    if chain2 is None:
+        return [f'    %c = "snax.layout_cast"(%k) : ({src_t}) -> {first_t}']
+    return [f'    %c0 = "snax.layout_cast"(%k) : ({src_t}) -> {first_t}', chain2]
+
+
 def _const_module(r, layout, shape, data):
     """Module text for the pattern kinds: constant/global (+ subview) -> snax.layout_cast -> tagged consumer."""
     elt = r["elt"]
@@ -540,17 +546,26 @@ def _const_module(r, layout, shape, data):
     kind = r["kind"]
     tile_t = G.mtype(shape, elt, None, sp)
     dst_t = G.mtype(shape, elt, lt, sp)
+    if r.get("order2") and kind in ("arith", "global", "global_uninit", "alloc"):
+        # chain of two layout casts: the consumer gets the second layout
+        tb2 = [[max(1, int(x)) for x in bs] for bs in r["tb"]]
+        lt2 = G.tsl_text(G.layout_from_order(tb2, [tuple(p) for p in r["order2"]]))
+        mid_t = dst_t
+        dst_t = G.mtype(shape, elt, lt2, sp)
+        chain2 = f'    %c = "snax.layout_cast"(%c0) : ({mid_t}) -> {dst_t}'
+    else:
+        chain2 = None
     use = f'    "test.op"(%c) {{"c12.tag" = 0 : i64}} : ({dst_t}) -> ()'
     head = '  "func.func"() <{sym_name = "main", function_type = () -> ()}> ({\n  ^bb0():'
     tail = '    "func.return"() : () -> ()\n  }) : () -> ()\n}'
     if kind == "arith":
         return "\n".join(["builtin.module {", head,
                           f'    %k = "arith.constant"() <{{value = {G.dense_text(data, shape)} : {tile_t}}}> : () -> {tile_t}',
-                          f'    %c = "snax.layout_cast"(%k) : ({tile_t}) -> {dst_t}', use, tail]), shape, None
+                          *_casts(tile_t, mid_t if chain2 else dst_t, chain2), use, tail]), shape, None
     if kind == "alloc":
         return "\n".join(["builtin.module {", head,
                           f'    %k = "memref.alloc"() <{{operandSegmentSizes = array<i32: 0, 0>, alignment = 64 : i64}}> : () -> {tile_t}',
-                          f'    %c = "snax.layout_cast"(%k) : ({tile_t}) -> {dst_t}', use, tail]), shape, None
+                          *_casts(tile_t, mid_t if chain2 else dst_t, chain2), use, tail]), shape, None
     if kind in ("global", "global_uninit"):
         iv = (f'initial_value = {G.dense_text(data, shape)} : tensor<{"x".join(map(str, shape))}xi{elt}>, constant' if kind == "global"
               else "initial_value")
@@ -558,7 +573,7 @@ def _const_module(r, layout, shape, data):
              f'sym_visibility = "private", alignment = 64 : i64}}> : () -> ()')
         return "\n".join(["builtin.module {", g, head,
                           f'    %k = "memref.get_global"() <{{name = @g}}> : () -> {tile_t}',
-                          f'    %c = "snax.layout_cast"(%k) : ({tile_t}) -> {dst_t}', use, tail]), shape, None
+                          *_casts(tile_t, mid_t if chain2 else dst_t, chain2), use, tail]), shape, None
     # subview_global
     mult = [max(1, m) for m in r["sub"]["mult"]]
     mult = [mult[d % len(mult)] for d in range(len(shape))]
@@ -588,6 +603,8 @@ def prop_constants(r):
     pos = [(d, k) for d, bs in enumerate(tb) for k in range(len(bs))]
     if sorted(order) != sorted(pos):
         raise Outside("order is not a permutation of the stride positions")
+    if r.get("order2") is not None and sorted(tuple(p) for p in r["order2"]) != sorted(pos):
+        raise Outside("order2 is not a permutation of the stride positions")
     layout = G.layout_from_order(tb, order)
     if r.get("unit_step"):
         for dim in layout["dims"]:
@@ -680,6 +697,11 @@ def prop_constants(r):
                 raise Violation("constants:subview_global:tile-layout-is-not-the-global-layout-restricted-to-the-tile",
                                 dict(index=[int(i) for i in idx], global_layout=G.tsl_text(gl), tile_layout=G.tsl_text(tl), **shown))
     cls.append("transformed" if transformed else "copied")
+    if r.get("order2") is not None and kind in ("arith", "global", "global_uninit", "alloc"):
+        cls.append("chain-of-two-layout-casts")
+        first = [pos.index(p) for p in order]
+        if any(first[first[k]] != k for k in range(len(first))):
+            cls.append("chain-of-two-layout-casts:first-order-not-an-involution")
     evals = 2
     if r.get("space") is None:
         # second round: the output (global / constant / alloc that now carries the layout, no memory space anywhere) is input
